@@ -148,6 +148,10 @@ def spec_call(ex, ev: Eval, node: ast.Call, fname: str):
         if isinstance(m.t, TList):
             return mk_list(m.t, list_len(m), z3.Store(list_arr(m), ev.expr(a[1]).z, coerce_to(ev.expr(a[2]), m.t.elem).z))
         raise Unsupported("store on " + str(m.t))
+    if fname == "int_typed":
+        # static: the argument is an int (or a list of ints) in THIS type variant of the proof
+        v = ev.expr(a[0])
+        return V(BOOL, z3.BoolVal(v.t == INT or (isinstance(v.t, TList) and v.t.elem == INT)))
     if fname == "toreal":
         return coerce_to(ev.expr(a[0]), REAL)
     if fname == "is_none":
@@ -426,6 +430,40 @@ def builtin_call(ex, ev: Eval, node, fname):
     if fname == "inf" and not a:
         from .expr import INF
         return V(REAL, INF)
+    if fname == "check_sequence_lengths" and a and not node.keywords and all(isinstance(x, ast.Tuple) and len(x.elts) == 2 for x in a):
+        # solvor.utils.validate.check_sequence_lengths((seq, "name"), ...): raises ValueError unless all sequences have the
+        # length of the first one, returns that length (12 straight lines; trusted table entry, listed in the evidence)
+        lens = []
+        for x in a:
+            v = ev.expr(x.elts[0])
+            if not isinstance(v.t, TList):
+                raise Unsupported("check_sequence_lengths over " + str(v.t))
+            lens.append(list_len(v))
+        for ln in lens[1:]:
+            ev.st.pc.append(ln == lens[0])
+        return V(INT, lens[0])
+    if fname == "sum" and len(a) == 1 and isinstance(a[0], ast.GeneratorExp):
+        return do_sumgen(ex, ev, a[0])
+    if fname in ("all", "any") and len(a) == 1 and isinstance(a[0], ast.GeneratorExp):
+        # all(cond for x in xs) / any(...): a quantifier over the generator's domain (conditions are pure)
+        g = a[0]
+        if len(g.generators) != 1 or g.generators[0].is_async:
+            raise Unsupported("all/any over several generator clauses")
+        gen = g.generators[0]
+        elem, member, qvars, _ = _gen_domain(ex, ev, gen)
+        st2 = ev.st.copy()
+        ex.assign(st2, gen.target, elem, Eval(ex, st2))
+        st2.pc.append(member)
+        sub = Eval(ex, st2, ev.spec, ev.bound, ev.old, ev.result)
+        conds = [sub.boolean(c) for c in gen.ifs]
+        body = sub.boolean(g.elt)
+        r = ex.new_sym(BOOL, fname + "_gen", ev.st)
+        dom = z3.And(member, *conds)
+        if fname == "all":
+            ev.st.pc.append(r.z == z3.ForAll(qvars, z3.Implies(dom, body)))
+        else:
+            ev.st.pc.append(r.z == z3.Exists(qvars, z3.And(dom, body)))
+        return r
     if fname == "sum" and len(a) == 1:
         v = ev.expr(a[0])
         if isinstance(v.t, TList) and v.t.elem in (INT, REAL):
@@ -1017,7 +1055,7 @@ def do_listcomp(ex, ev, node):
     gen = node.generators[0]
     k = ex.loop_ord[id(node)]
     name = f"_comp{k}"
-    hint = ex.spec.types.get(name)
+    hint = ex.variant.get(name, ex.spec.types.get(name))
     if hint is None:
         raise Unsupported(f"declare the element type of the comprehension as types['{name}']")
     t = ex.ptype(hint)
@@ -1034,12 +1072,65 @@ def do_listcomp(ex, ev, node):
     ast.fix_missing_locations(loop)
     ex.loop_ord[id(loop)] = k
     from .forloops import exec_for
+    saved = _save_targets(st, gen.target)
     exits = exec_for(ex, loop, st)
     normal = [e for e in exits if e[1] == "normal"]
     if len(normal) != 1 or len(exits) != 1:
         raise Unsupported("comprehension body leaves the loop abnormally")
     st.vars, st.pc, st.unbound = normal[0][0].vars, normal[0][0].pc, normal[0][0].unbound
+    _restore_targets(st, saved)
     return st.vars[name]
+
+
+def do_sumgen(ex, ev, g):
+    """sum(elt for x in seq (if c))  ==  acc = 0; for x in seq: (if c:) acc += elt   executed as a loop cut at the invariant the
+    sidecar gives for this generator's loop ordinal (the accumulator is `_sum<k>`, int unless types['_sum<k>'] says real)"""
+    if len(g.generators) != 1 or g.generators[0].is_async:
+        raise Unsupported("sum over several generator clauses")
+    gen = g.generators[0]
+    k = ex.loop_ord[id(g)]
+    name = f"_sum{k}"
+    t = ex.ptype(ex.variant.get(name, ex.spec.types.get(name, "int")))
+    if t not in (INT, REAL):
+        raise Unsupported("sum accumulator type")
+    st = ev.st
+    st.vars[name] = V(t, z3.RealVal(0) if t == REAL else z3.IntVal(0))
+    body = [ast.AugAssign(target=ast.Name(id=name, ctx=ast.Store()), op=ast.Add(), value=g.elt)]
+    for cond in reversed(gen.ifs):
+        body = [ast.If(test=cond, body=body, orelse=[])]
+    loop = ast.For(target=gen.target, iter=gen.iter, body=body, orelse=[])
+    for n_ in ast.walk(loop):
+        ast.copy_location(n_, g)
+    ast.fix_missing_locations(loop)
+    ex.loop_ord[id(loop)] = k
+    from .forloops import exec_for
+    saved = _save_targets(st, gen.target)
+    exits = exec_for(ex, loop, st)
+    normal = [e for e in exits if e[1] == "normal"]
+    if len(normal) != 1 or len(exits) != 1:
+        raise Unsupported("sum generator leaves the loop abnormally")
+    st.vars, st.pc, st.unbound = normal[0][0].vars, normal[0][0].pc, normal[0][0].unbound
+    _restore_targets(st, saved)
+    return st.vars[name]
+
+
+def _save_targets(st, target):
+    """a comprehension / generator has its own scope: its target names do not touch the enclosing function's locals"""
+    names = [n_.id for n_ in ast.walk(target) if isinstance(n_, ast.Name)]
+    return {nm: (st.vars.get(nm), st.unbound.get(nm)) for nm in names}
+
+
+def _restore_targets(st, saved):
+    for nm, (v, ub) in saved.items():
+        if v is None:
+            st.vars.pop(nm, None)
+            st.unbound.pop(nm, None)
+        else:
+            st.vars[nm] = v
+            if ub is None:
+                st.unbound.pop(nm, None)
+            else:
+                st.unbound[nm] = ub
 
 
 # ---------------------------------------------------------------------- calls by contract
@@ -1071,6 +1162,17 @@ def call_by_contract(ex, ev: Eval, node: ast.Call, sp, recv, is_init=False):
             if dn is None:
                 raise Unsupported(f"missing argument {p.arg} in call to {sp.qualname}")
             argvals[p.arg] = (None, Eval(ex, st).expr(dn))
+    if sp.variants:
+        # the callee is proved once per type variant: use the contract of the variant whose parameter types are the argument types
+        for var in sp.variants:
+            if not var:
+                continue
+            try:
+                if all(ex.ptype(tv) == argvals[pn][1].t for pn, tv in var.items() if pn in argvals):
+                    cex = type(ex)(ex.reg, sp, callee_file_ast, callee_fn, callee_cls, variant=var, file=sp.file)
+                    break
+            except Exception:
+                continue
     for p in params + list(a.kwonlyargs):
         an, v = argvals[p.arg]
         t = cex.declared_type(p.arg, p.annotation)
